@@ -621,7 +621,7 @@ int main(int argc, char *argv[])
       command.rtrim();
     }
 
-    if (is_command_valid(command, arg) == false) { continue; }
+    if (!in_code && is_command_valid(command, arg) == false) { continue; }
 
     bool has_arg = arg.len() != 0;
 
@@ -655,6 +655,13 @@ int main(int argc, char *argv[])
         else
       {
         code += command.value();
+
+        if (arg.len() != 0)
+        {
+          code += " ";
+          code += arg.value();
+        }
+
         code += "\n";
       }
 
